@@ -302,8 +302,43 @@ def check_value(ctx, v):
         ctx.violation('C19|value-type-does-not-conform-to-its-python-type|%s' % fam, case, '%s is not a subtype of %s' % (t, nt))
 
 
+DEPTH2_LEAVES = ['3', '0.5', '2.5', "'ab'", '[1, 2]', '(1, 2)']
+DEPTH2_OPS = ['+', '-', '*', '/', '//', '%', '**', '<', '==', '&', '|', '^', '<<', '>>']
+
+
+def depth2_trees():
+    """every operator over every pair of core leaves, used once more as the left or the right operand of every operator: what a
+    sub-expression is typed as decides what is accepted around it"""
+    out = []
+    for op1 in DEPTH2_OPS:
+        for a in DEPTH2_LEAVES:
+            for b in DEPTH2_LEAVES:
+                inner = '(%s %s %s)' % (a, op1, b)
+                try:
+                    v = eval(inner)
+                except Exception:
+                    continue
+                if type(v) not in (int, float, str, list, tuple):
+                    continue
+                for op2 in DEPTH2_OPS:
+                    for c in DEPTH2_LEAVES:
+                        out.append('(%s %s %s)' % (inner, op2, c))
+                        out.append('(%s %s %s)' % (c, op2, inner))
+    return out
+
+
 def run(ctx):
     rng = ctx.rng
+    trees = depth2_trees()
+    mine = trees[ctx.shard::ctx.nshards]
+    if ctx.quick():
+        rng.shuffle(mine)
+    for src in mine[:ctx.pick(1500, len(mine))]:
+        if ctx.time_left() < 20:
+            ctx.count('depth2_trees_not_reached_budget')
+            break
+        check_tree(ctx, src)
+        ctx.count('depth2_sweep_trees')
     cells = all_cells()
     for i, (op, fn, l, r, lk, rk) in enumerate(cells):
         if i % ctx.nshards != ctx.shard:
